@@ -6,8 +6,9 @@ import ColoVerif.Proofs.Transp1dUnsplit
 
 All statements are about `ColoVerif.Transp1d.{solve, assign, balanceDemand}` — the functions the
 driver `drv_C14` executes against `Transportation1d::{solve, assign, balanceDemand}`.
-`fuel` bounds the model's only unbounded loop (`while` in `Transportation1dSolver::push`); the
-theorems hold for every `fuel`, and `Err.outOfFuel` is the only failure they leave open.
+The model's only unbounded loop (`while` in `Transportation1dSolver::push`) runs on the fuel
+`loopFuel = 2 * nbSinks + events.size() + 3`, which `Proofs/Transp1dTerm.lean` proves sufficient on
+the whole domain: the theorems below are unconditional ("never errors" includes `outOfFuel`).
 -/
 namespace ColoVerif.C14
 open ColoVerif.Transp1d
@@ -28,20 +29,20 @@ theorem cert_optimal_1d (pb : Problem) (plan plan' : Plan) (al be : List Int)
   cert_optimal_core pb plan plan' al be hc hv
 
 /-- non-vacuity: the certificate of the plan returned for u=[0,3], v=[1,2], s=[2,1], d=[2,2] -/
-example : solve 100 ⟨[0, 3], [1, 2], [2, 1], [2, 2]⟩ = .ok [(0, 0, 2), (1, 1, 1)] ∧
+example : solve ⟨[0, 3], [1, 2], [2, 1], [2, 2]⟩ = .ok [(0, 0, 2), (1, 1, 1)] ∧
     certOk ⟨[0, 3], [1, 2], [2, 1], [2, 2]⟩ [(0, 0, 2), (1, 1, 1)] [1, 1] [0, 0] = true := by decide
 
 /-- The universal optimality statement of C14 (not proved for all inputs; see `t1d_optimal_partial`). -/
 def t1d_optimal_full_statement : Prop :=
-  ∀ (fuel : Nat) (pb : Problem) (plan plan' : Plan), InDomain pb → solve fuel pb = .ok plan →
+  ∀ (pb : Problem) (plan plan' : Plan), InDomain pb → solve pb = .ok plan →
     validPlan pb plan' = true → validPlan pb plan = true ∧ planCost pb plan ≤ planCost pb plan'
 
 /-- PARTIAL (per-instance certificate route).  Whenever the plan returned by `solve` passes
 `certOk` for some potentials, it is a valid plan of minimum cost.  The driver computes potentials
 (untrusted Bellman–Ford) and evaluates this very `certOk` on every `cert` op (`cert ok`).  Missing
 for `t1d_optimal_full_statement`: that such potentials exist for every input. -/
-theorem t1d_optimal_partial (fuel : Nat) (pb : Problem) (plan plan' : Plan) (al be : List Int)
-    (_hs : solve fuel pb = .ok plan) (hc : certOk pb plan al be = true)
+theorem t1d_optimal_partial (pb : Problem) (plan plan' : Plan) (al be : List Int)
+    (_hs : solve pb = .ok plan) (hc : certOk pb plan al be = true)
     (hv : validPlan pb plan' = true) :
     validPlan pb plan = true ∧ planCost pb plan ≤ planCost pb plan' := by
   refine ⟨?_, cert_optimal_core pb plan plan' al be hc hv⟩
@@ -52,10 +53,7 @@ theorem t1d_optimal_partial (fuel : Nat) (pb : Problem) (plan plan' : Plan) (al 
 does not fail, and whenever it returns) a plan that meets every supply exactly, exceeds no demand
 and has positive entries in range. -/
 def t1d_valid_full_statement : Prop :=
-  ∀ (fuel : Nat) (pb : Problem), InDomain pb →
-    match solve fuel pb with
-    | .ok plan => validPlan pb plan = true
-    | .error e => e = Err.outOfFuel
+  ∀ (pb : Problem), InDomain pb → ∃ plan, solve pb = .ok plan ∧ validPlan pb plan = true
 
 /-- PARTIAL.  Proved for all inputs of the domain: on the sorted zero-free instance handed to the
 solver, the sweep + `flushPositions` never index out of range and return one position per source
@@ -66,21 +64,16 @@ the plan from (entry `(i,j)` = length of the overlap of source interval `i` with
 `computeSolution` (row sums = interval lengths, column sums ≤ sink lengths) and the index renaming
 of `convertSolutionBack`; both are covered by the direct oracle on every generated case and by
 `validPlan` inside every `cert ok`. -/
-theorem t1d_valid_partial (fuel : Nat) (pb : Problem) (h : InDomain pb) :
-    match run (sortedSolver pb) fuel with
-    | .ok p => p.length = (sortedSolver pb).u.length ∧
+theorem t1d_valid_partial (pb : Problem) (h : InDomain pb) :
+    ∃ p, run (sortedSolver pb) = .ok p ∧ p.length = (sortedSolver pb).u.length ∧
         (∀ i, i < (sortedSolver pb).u.length → 0 ≤ p.getD i 0 ∧
           (sortedSolver pb).S.getD (i + 1) 0 + p.getD i 0
             ≤ (sortedSolver pb).D.getD (sortedSolver pb).v.length 0) ∧
         (∀ i, i + 1 < (sortedSolver pb).u.length →
           (sortedSolver pb).S.getD (i + 1) 0 + p.getD i 0
-            ≤ (sortedSolver pb).S.getD (i + 1) 0 + p.getD (i + 1) 0)
-    | .error e => e = Err.outOfFuel := by
-  have hv : checkOk pb = true := (checkOk_iff pb).mpr h
-  have := run_geometry fuel pb hv
-  cases hr : run (sortedSolver pb) fuel with
-  | ok a => rw [hr] at this; exact this
-  | error e => rw [hr] at this; exact this
+            ≤ (sortedSolver pb).S.getD (i + 1) 0 + p.getD (i + 1) 0) := by
+  obtain ⟨p, e, _, h1, h2, h3⟩ := run_geometry pb ((checkOk_iff pb).mpr h)
+  exact ⟨p, e, h1, h2, h3⟩
 
 /-- `solve`/`assign` really run the sweep on `sortedSolver pb` (ties `t1d_valid_partial` to them). -/
 theorem t1d_solver_instance (pb : Problem) (h : InDomain pb) :
@@ -90,8 +83,8 @@ theorem t1d_solver_instance (pb : Problem) (h : InDomain pb) :
 
 /-- The statement of C14 about unsplit sources. -/
 def t1d_unsplit_kept_full_statement : Prop :=
-  ∀ (fuel : Nat) (pb : Problem) (plan : Plan) (a : List Nat) (i j : Nat), InDomain pb →
-    solve fuel pb = .ok plan → assign fuel pb = .ok a → i < pb.u.length → 0 < pb.s.getD i 0 →
+  ∀ (pb : Problem) (plan : Plan) (a : List Nat) (i j : Nat), InDomain pb →
+    solve pb = .ok plan → assign pb = .ok a → i < pb.u.length → 0 < pb.s.getD i 0 →
     (∀ e ∈ plan, e.1 = i → e.2.1 = j) → pb.v.getD (a.getD i 0) 0 = pb.v.getD j 0
 
 /-- PARTIAL (complete at the level of the instance handed to the solver).  For every input of the
@@ -103,17 +96,17 @@ Missing for `t1d_unsplit_kept_full_statement`: "single plan entry ⇒ interval c
 the merge of `computeSolution`) and the renaming by `srcOrder`/`snkOrder` in
 `convertSolutionBack`/`convertAssignmentBack`; the direct oracle checks the full statement on
 every generated case. -/
-theorem t1d_unsplit_kept_partial (fuel : Nat) (pb : Problem) (h : InDomain pb)
-    (p : List Int) (a : List Nat) (hrun : run (sortedSolver pb) fuel = .ok p)
+theorem t1d_unsplit_kept_partial (pb : Problem) (h : InDomain pb)
+    (p : List Int) (a : List Nat) (hrun : run (sortedSolver pb) = .ok p)
     (ha : computeAssignment (sortedSolver pb) p = .ok a) (k j : Nat)
     (hk : k < (sortedSolver pb).u.length) (hj : j < (sortedSolver pb).v.length)
     (h1 : (sortedSolver pb).D.getD j 0 ≤ (sortedSolver pb).S.getD k 0 + p.getD k 0)
     (h2 : (sortedSolver pb).S.getD (k + 1) 0 + p.getD k 0 ≤ (sortedSolver pb).D.getD (j + 1) 0) :
     a.getD k 0 = j :=
-  computeAssignment_unsplit fuel pb ((checkOk_iff pb).mpr h) p a hrun ha k j hk hj h1 h2
+  computeAssignment_unsplit pb ((checkOk_iff pb).mpr h) p a hrun ha k j hk hj h1 h2
 
 /-- non-vacuity: u=[0,3], v=[1,2], s=[2,1], d=[2,2]: positions [0,0]... source 0 inside sink 0 -/
-example : run (sortedSolver ⟨[0, 3], [1, 2], [2, 1], [2, 2]⟩) 100 = .ok [0, 0] ∧
+example : run (sortedSolver ⟨[0, 3], [1, 2], [2, 1], [2, 2]⟩) = .ok [0, 0] ∧
     computeAssignment (sortedSolver ⟨[0, 3], [1, 2], [2, 1], [2, 2]⟩) [0, 0] = .ok [0, 1] := by decide
 
 /-- the single rounding step: the walk stops at the unique sink containing the position -/
@@ -140,29 +133,35 @@ theorem balanceDemand_covers (pb : Problem) (hs : pb.s.length = pb.u.length)
 example : balanceDemand ⟨[3, 1], [0, 5], [4, 1], [1, 1]⟩ = .ok ⟨[3, 1], [0, 5], [4, 1], [3, 2]⟩ := by
   decide
 
-/-- FULL for memory safety (after F10's repair), for ALL inputs of the domain — zero supplies and
-zero demands included: `assign` performs no out-of-range access (the only error the model can
-report is its own `outOfFuel`), returns exactly one entry per source, and — as soon as some sink
-has positive demand — every entry names a sink of positive demand.
-Not covered: termination of the sweep's `while` loop (that `outOfFuel` never happens for large
-`fuel`); the correspondence stream runs with fuel 10^6 and never sees it. -/
-theorem t1d_assign_safe (fuel : Nat) (pb : Problem) (h : InDomain pb) :
-    match assign fuel pb with
-    | .ok a => a.length = pb.u.length ∧
-        ((∃ j, j < pb.v.length ∧ 0 < pb.d.getD j 0) → ∀ k ∈ a, k < pb.v.length ∧ 0 < pb.d.getD k 0)
-    | .error e => e = Err.outOfFuel := by
-  have hv : checkOk pb = true := (checkOk_iff pb).mpr h
-  have := assign_safe fuel pb hv
-  cases hr : assign fuel pb with
-  | ok a => rw [hr] at this; exact this
-  | error e => rw [hr] at this; exact this
+/-- FULL (after F10's repair), for ALL inputs of the domain — zero supplies and zero demands
+included: `assign` never errors — no out-of-range access anywhere (sorter, sweep, flush, rounding
+walk, mapping back) and the `while` loop of `push` terminates within the fuel the model passes
+(`Err.outOfFuel` impossible) —, returns exactly one entry per source, and — as soon as some sink
+has positive demand — every entry names a sink of positive demand. -/
+theorem t1d_assign_safe (pb : Problem) (h : InDomain pb) :
+    ∃ a, assign pb = .ok a ∧ a.length = pb.u.length ∧
+      ((∃ j, j < pb.v.length ∧ 0 < pb.d.getD j 0) → ∀ k ∈ a, k < pb.v.length ∧ 0 < pb.d.getD k 0) :=
+  assign_total pb ((checkOk_iff pb).mpr h)
+
+/-- FULL.  Termination of the sweep: on every instance whose prefix sums are monotone with total
+supply ≤ total demand (`Solver.Dom`; `sortedSolver_dom`: every instance the sorter builds from an
+input of the domain), the `while` loop of `push`, started with `loopFuel` from a state satisfying
+the sweep invariants, ends normally with its condition false. -/
+theorem t1d_push_terminates (sv : Solver) (dom : sv.Dom) (i : Nat) (hi : i < sv.u.length) (st : St)
+    (inv : Inv sv st) (ei : EvInv st)
+    (hJ : sv.D.getD st.lastOcc 0 - sv.S.getD i 0 ≤ st.lastPosition) :
+    ∃ st', push sv i st = .ok st' ∧ Inv sv st' ∧ EvInv st' ∧
+      sv.D.getD st'.lastOcc 0 - sv.S.getD (i + 1) 0 ≤ st'.lastPosition ∧
+      st'.lastPosition ≤ sv.D.getD (st'.lastOcc + 1) 0 - sv.S.getD (i + 1) 0 := by
+  obtain ⟨st', e, k1, _, k3, k4, k5⟩ := push_total sv dom i hi st inv ei hJ
+  exact ⟨st', e, k1, k3, k4, k5⟩
 
 /-- non-vacuity, and the F10 witness on the repaired model -/
-example : assign 10 ⟨[0, 1], [0, 1], [0, 1], [0, 1]⟩ = .ok [1, 1] := by decide
+example : assign ⟨[0, 1], [0, 1], [0, 1], [0, 1]⟩ = .ok [1, 1] := by decide
 
 /-- Before the repair of F10 (`Model/LegacyTransp1d.lean`): with u=[0,1], s=[0,1] the write
 `ret[srcOrder[0]]` is out of range — the heap overflow ASan reports on the unrepaired tree. -/
 theorem assign_oob_with_zero_supply :
-    assignLegacy 10 ⟨[0, 1], [0, 1], [0, 1], [0, 1]⟩ = .error Err.indexOutOfRange := by decide
+    assignLegacy ⟨[0, 1], [0, 1], [0, 1], [0, 1]⟩ = .error Err.indexOutOfRange := by decide
 
 end ColoVerif.C14
